@@ -9,6 +9,7 @@ import (
 	"github.com/pip-services3-gox/pip-services3-expressions-gox/calculator/functions"
 	cparsers "github.com/pip-services3-gox/pip-services3-expressions-gox/calculator/parsers"
 	ctok "github.com/pip-services3-gox/pip-services3-expressions-gox/calculator/tokenizers"
+	"github.com/pip-services3-gox/pip-services3-expressions-gox/calculator/variables"
 	"github.com/pip-services3-gox/pip-services3-expressions-gox/csv"
 	sio "github.com/pip-services3-gox/pip-services3-expressions-gox/io"
 	"github.com/pip-services3-gox/pip-services3-expressions-gox/mustache"
@@ -59,6 +60,14 @@ type instance struct {
 	// configuration calls applied so far (CSV tokenizer): a fresh reference
 	// instance gets the same configuration, not the same inputs
 	configs []int
+	// calculator only: current operations manager, last expression set successfully (for
+	// re-evaluation without SetExpression) and a variable collection that lives as long as
+	// the instance and is edited between steps
+	opsSafe  bool
+	lastText string
+	parsed   bool
+	pvars    *variables.VariableCollection
+	pcount   int
 }
 
 // freshLike builds a new instance with the configuration history of in.
@@ -67,19 +76,52 @@ func (in *instance) freshLike() *instance {
 	for _, c := range in.configs {
 		f.configure(c)
 	}
+	f.lastText = in.lastText // the fresh instance has to parse it first (parsed stays false)
 	return f
 }
 
 // configure applies one of a few CSV tokenizer reconfigurations.
 func (in *instance) configure(which int) {
+	if which < 0 {
+		which = -which
+	}
+	if in.calc != nil {
+		switch {
+		case which == 100: // switch the operations manager
+			in.opsSafe = !in.opsSafe
+		case which >= 200 && which < 300: // add variables to the instance's own collection
+			for k := 0; k < which-200; k++ {
+				in.pvars.Add(variables.NewVariable(fmt.Sprintf("pv%d", in.pcount), variants.VariantFromInteger(in.pcount)))
+				in.pcount++
+			}
+		case which >= 300 && which < 400: // remove one by name
+			if in.pcount > 0 {
+				name := fmt.Sprintf("pv%d", (which-300)%in.pcount)
+				if which%2 == 1 {
+					name = strings.ToUpper(name)
+				}
+				in.pvars.RemoveByName(name)
+			}
+		default:
+			return
+		}
+		in.configs = append(in.configs, which)
+		return
+	}
 	t, ok := in.tok.(*csv.CsvTokenizer)
 	if !ok {
 		return
 	}
-	if which < 0 {
-		which = -which
-	}
-	switch which % 6 {
+	switch which % 9 {
+	case 6: // a quote symbol outside Latin-1
+		t.SetFieldSeparators([]rune{','})
+		t.SetQuoteSymbols([]rune{'«'})
+	case 7: // a field separator outside Latin-1 (fullwidth comma)
+		t.SetQuoteSymbols([]rune{'"'})
+		t.SetFieldSeparators([]rune{'，'})
+	case 8:
+		t.SetFieldSeparators([]rune{',', '，'})
+		t.SetQuoteSymbols([]rune{'"', '«'})
 	case 0:
 		t.SetQuoteSymbols([]rune{'"'})
 		t.SetFieldSeparators([]rune{';'})
@@ -124,7 +166,9 @@ func newInstance(kind, opts string) *instance {
 		in.mp = mparsers.NewMustacheParser()
 	case "calc":
 		in.calc = calculator.NewExpressionCalculator()
+		in.pvars = variables.NewVariableCollection()
 		if strings.Contains(opts, "S") {
+			in.opsSafe = true
 			in.calc.SetVariantOperations(variants.NewTypeSafeVariantOperations())
 		}
 	case "tmpl":
@@ -357,11 +401,14 @@ func (in *instance) step(o Op, sets []VarSet, dry *stepStats) (res string, st st
 		text := o.S
 		var ops *SimOps
 		inner := opsManager("unsafe")
-		if strings.Contains(in.opts, "S") {
+		if in.opsSafe {
 			inner = opsManager("safe")
 		}
 		ops = &SimOps{Inner: inner}
 		vars := &SimVariables{VariableCollection: buildVars(vs)}
+		if o.Op == "pveval" {
+			vars = &SimVariables{VariableCollection: in.pvars} // the instance's own, edited collection
+		}
 		fn := &FnFault{}
 		funcs := functions.NewDefaultFunctionCollection()
 		funcs.Add(functions.NewDelegatedFunction("Faulty", fn.Delegate(nil)))
@@ -373,9 +420,9 @@ func (in *instance) step(o Op, sets []VarSet, dry *stepStats) (res string, st st
 			case "var_missing":
 				vars.Missing = f.Name
 			case "fn_error", "fn_panic":
-				fn.Kind, fn.At = f.Kind, 1
+				fn.Kind, fn.At, fn.Msg = f.Kind, 1, f.At
 			case "fn_error_plain":
-				fn.Kind, fn.At = "fn_error", 1
+				fn.Kind, fn.At, fn.Msg = "fn_error", 1, f.At
 			}
 		}
 		in.calc.SetVariantOperations(ops)
@@ -391,10 +438,24 @@ func (in *instance) step(o Op, sets []VarSet, dry *stepStats) (res string, st st
 			}
 		}()
 		var err error
-		if o.Op == "tokens" {
+		switch {
+		case o.Op == "reeval":
+			// evaluate the expression set last again, without setting it anew (a fresh instance has to parse it first)
+			if in.lastText == "" {
+				return "nothing-to-reevaluate", st
+			}
+			if !in.parsed {
+				err = in.calc.SetExpression(in.lastText)
+			}
+		case o.Op == "tokens":
+			in.parsed, in.lastText = false, ""
 			in.calc.SetOriginalTokens(exprOriginalTokens(text)) // reports no error; a failed parse leaves an empty program
-		} else {
+		default:
+			in.parsed, in.lastText = false, ""
 			err = in.calc.SetExpression(text)
+			if err == nil {
+				in.parsed, in.lastText = true, text
+			}
 		}
 		if err != nil {
 			return fmt.Sprintf("set-err=%s|%s", ErrCode(err), ErrMessage(err)), st
@@ -483,10 +544,24 @@ func c05GenTask(r *Rand, kind string, faults bool, first, second int) TaskPlan {
 			o.Op = r.Pick([]string{"buffer", "stream", "manual", "manual", "buffer", "stream", "manual", "manual", "strings", "streamstrings"})
 			o.I = r.Intn(4)
 			if kind == "csvtok" && r.Bool(0.12) {
-				tp.Ops = append(tp.Ops, Op{Op: "config", I: r.Intn(6)})
+				tp.Ops = append(tp.Ops, Op{Op: "config", I: r.Intn(9)})
 			}
 		} else if r.Bool(0.2) {
 			o.Op = "tokens"
+		}
+		if kind == "calc" {
+			switch r.Intn(12) {
+			case 0:
+				tp.Ops = append(tp.Ops, Op{Op: "config", I: 100})
+			case 1:
+				tp.Ops = append(tp.Ops, Op{Op: "config", I: 200 + r.PickInt([]int{1, 3, 8, 17, 24})})
+			case 2:
+				tp.Ops = append(tp.Ops, Op{Op: "config", I: 300 + r.Intn(60)})
+			case 3, 4:
+				o.Op = "reeval"
+			case 5, 6:
+				o.Op = "pveval"
+			}
 		}
 		switch {
 		case i == 0 && first >= 0:
@@ -495,6 +570,12 @@ func c05GenTask(r *Rand, kind string, faults bool, first, second int) TaskPlan {
 			o.S = pool[second%len(pool)]
 		default:
 			o.S = c05Input(r, kind)
+		}
+		if o.Op == "pveval" {
+			o.S = fmt.Sprintf("pv%d %s pv%d", r.Intn(40), r.Pick([]string{"+", "*", "-"}), r.Intn(40))
+			if r.Bool(0.3) {
+				o.S = strings.ToUpper(o.S)
+			}
 		}
 		o.Set = r.Intn(2)
 		if faults && r.Bool(0.3) && o.Op != "strings" && o.Op != "streamstrings" {
@@ -635,7 +716,7 @@ func (propC05) Exec(p *Plan, x *Ctx) *Outcome {
 					"task %d (%s, options %q) step %d after history %s:\n reused instance: %s\n fresh instance:  %s", t, tp.Kind, tp.Text, i, strings.Join(hist, ", "), clip(r.got), clip(r.fresh))
 				break
 			}
-			if (o.F == nil || !faultsOn) && c05Pristine != nil && !r.configured {
+			if (o.F == nil || !faultsOn) && c05Pristine != nil && !r.configured && o.Op != "reeval" && o.Op != "pveval" {
 				if want, ok := c05Pristine[c05PristineKey(tp.Kind, tp.Text, o, o.Set%2)]; ok {
 					out.Probes["pristine_compared"]++
 					if want != r.got {
